@@ -270,7 +270,10 @@ def parse_file(path):
                                             'bytes': data if ok and len(data) == int(m.group(3)) else None}
             i = j + 1
         elif line.startswith('const ') and line.endswith(';') and ' = const ' in line:
-            m = re.match(r'^const (.*?): (.*?) = const (.*);$', line)
+            masked = re.sub(r'<impl at [^>]*>', lambda mm: '#' * len(mm.group(0)), line)
+            m = re.match(r'^const (.*?): (.*?) = const (.*);$', masked)
+            if m:
+                m = re.match(r'^const (.{%d}): (.*?) = const (.*);$' % (m.end(1) - m.start(1)), line)
             if m:
                 fn = Function(m.group(1), 'const')
                 fn.ret = m.group(2)
